@@ -82,6 +82,7 @@ class Sim(object):
         self.stalls = 0
         self.focus_stall = None      # (function name, probability per line, max seconds)
         self.focus_hits = 0
+        self.stall_log = []          # (virtual start, duration, thread name) of every injected thread stall
         self.fault_counter = None    # SimNet.count, so that scheduler-level faults are reported with the network ones
         self.log_picks = log_picks
         self._prio = {}
@@ -393,6 +394,7 @@ class Sim(object):
             # focused stall: this run singles out one function; a thread executing it is descheduled at some of its lines
             d = fs[2] * self.line_rng.choice((0.1, 0.3, 1.0))
             self.focus_hits += 1         # workloads may bind an action to this moment ("shut down while _replace is between two lines")
+            self.stall_log.append((self.now - T0, d, t.name))
             self.stalls += 1
             self.preemptions += 1
             self.rec('fault', 'thread stall %s in %s %.4fs' % (t.name, fs[0], d))
@@ -410,6 +412,7 @@ class Sim(object):
                 # fault: the thread is descheduled at this line for a while (slow CPU, GC pause, page fault) - virtual time
                 # passes, responses arrive and timers fire while it sits between two lines, possibly holding locks
                 d = st[1] * self.line_rng.choice((0.01, 0.1, 0.3, 1.0))
+                self.stall_log.append((self.now - T0, d, t.name))
                 self.stalls += 1
                 self.rec('fault', 'thread stall %s %.4fs' % (t.name, d))
                 if self.fault_counter is not None:
